@@ -303,6 +303,7 @@ type conn struct {
 	session     string
 	peerClosedC chan struct{}
 	playerDone  chan struct{} // closed when the player goroutine has ended
+	playWritten chan struct{} // closed once the PLAY answer has been written: the player acts only after it
 }
 
 type command struct {
@@ -361,7 +362,7 @@ func (c *Camera) acceptLoop() {
 		if err != nil {
 			return
 		}
-		cn := &conn{cam: c, nc: nc.(*net.TCPConn), cmd: make(chan command, 16), peerClosedC: make(chan struct{}), playerDone: make(chan struct{})}
+		cn := &conn{cam: c, nc: nc.(*net.TCPConn), cmd: make(chan command, 16), peerClosedC: make(chan struct{}), playerDone: make(chan struct{}), playWritten: make(chan struct{})}
 		cn.br = bufio.NewReaderSize(nc, 64*1024)
 		cn.rec.Accepted = time.Now()
 		cn.rec.Channels = [2][2]int{{-1, -1}, {-1, -1}}
@@ -1237,6 +1238,11 @@ func (cn *conn) handle(r *Request) bool {
 		}
 		cn.wmu.Unlock()
 		cn.fmu.Unlock()
+		select {
+		case <-cn.playWritten:
+		default:
+			close(cn.playWritten)
+		}
 		return true
 	}
 	after()
@@ -1406,6 +1412,12 @@ func (cn *conn) player() {
 	defer cn.cam.wg.Done()
 	defer close(cn.playerDone)
 	sc := &cn.cam.sc
+	// nothing of the play phase (frames, the scripted ending) may overtake the PLAY answer
+	select {
+	case <-cn.playWritten:
+	case <-cn.peerClosedC:
+		return
+	}
 	cn.mu.Lock()
 	rest := sc.Initial - cn.nextFrame // what did not travel with the PLAY answer
 	cn.mu.Unlock()
